@@ -277,7 +277,7 @@ def _driver(ctx, it, int_bounds):
     fn = it.repo_function(fnq)
     paths = it.explore(lambda: fn(afn, lower=lo_sv, upper=hi_sv, tol=SV(tol), length=SV(length), max_iter=SV(maxit)))
     normal = [p for p in paths if p.outcome == "return"]
-    ctx.oblige(f"C10/_autoregressive_bisection_search{TAG}/struct/single_path", len(paths) == 1 and len(normal) == 1, [], props, kind="struct", fn=fnq)
+    ctx.oblige(f"C10/_autoregressive_bisection_search{TAG}/struct/single_path", len(paths) == 1 and len(normal) == 1, [], props, kind="applicability", fn=fnq)
     if len(normal) != 1:
         return
     p = normal[0]
@@ -288,7 +288,7 @@ def _driver(ctx, it, int_bounds):
     for cinfo in calls:
         t, probe = cinfo["t"], cinfo["probe"]
         facts.append(dict(cinfo))
-    ctx.oblige(f"C10/_autoregressive_bisection_search{TAG}/struct/one_scalar_search_per_coordinate", ok_calls, [], props, kind="struct", fn=fnq)
+    ctx.oblige(f"C10/_autoregressive_bisection_search{TAG}/struct/one_scalar_search_per_coordinate", ok_calls, [], props, kind="applicability", fn=fnq)
     # triangular precondition (instances): ROOT(j, .) and H(j, .) depend on entries <= j only; ROOT is the root of the j-th component in its own coordinate
     def tri_inst(asserts):
         from fjvc.core import apps_of
@@ -358,9 +358,23 @@ def inverter_wiring(ctx):
     b, y, c, v = z3.Const("b", BIJ), z3.Const("y", T), z3.Const("c", T), z3.Const("v", T)
     SUB = z3.Function("vec_sub", T, T, T)
 
+    WHERE = z3.Function("where", T, T, T, T)
+    ABSV = z3.Function("abs", T, T)
+    LTV = z3.Function("less_than", T, z3.RealSort(), T)
+
     class STV(TV):
         def __sub__(self, o):
             return STV(SUB(self.e, o.e))
+
+        def __lt__(self, o):
+            return STV(LTV(self.e, to_real(lift(o))))
+
+        __le__ = __lt__
+
+    # any post-processing of the residual (thresholding, clipping ...) is a DIFFERENT function of x: kept symbolic so that the
+    # obligation below is decided instead of the family becoming untranslatable
+    it.lib.overrides["jax.numpy.abs"] = lambda v: STV(ABSV(v.e)) if isinstance(v, TV) else abs(v)
+    it.lib.overrides["jax.numpy.where"] = lambda c_, a_, b_: STV(WHERE(c_.e, a_.e if isinstance(a_, TV) else z3.Const(f"const_{a_}".replace(".", "_").replace("-", "m"), T), b_.e if isinstance(b_, TV) else z3.Const(f"const_{b_}".replace(".", "_").replace("-", "m"), T)))
 
     class Bij(AbsBij):
         def transform(self, x, condition=None):
@@ -378,7 +392,7 @@ def inverter_wiring(ctx):
         ctx.oblige("C10/AutoregressiveBisectionInverter.__call__/post/configuration_forwarded", bool(good), [], props, kind="struct", fn=fnq)
         fn = rec.get("autoregressive_fn")
         out = fn(STV(v)) if fn is not None else None
-        ctx.oblige("C10/AutoregressiveBisectionInverter.__call__/post/searches_the_root_of_transform_minus_y", (out.e == SUB(F(b, v, c), y)) if out is not None else z3.BoolVal(False), [], props, fn=fnq)
+        ctx.oblige("C10/AutoregressiveBisectionInverter.__call__/post/searches_the_root_of_transform_minus_y", (out.e == SUB(F(b, v, c), y)) if out is not None else z3.BoolVal(False), [], props, fn=fnq, replay=dict(kind="bisection", fn="AutoregressiveBisectionInverter", vars={}))
     # BNAF.inverse hands itself, y and the condition to the inverter
     bq = "flowjax.bijections.block_autoregressive_network.BlockAutoregressiveNetwork"
     bcls = it.repo_class(bq)
